@@ -73,6 +73,7 @@ inductive Instr where
   | join (a b : List Instr)                                        -- futures::join!
   | select (a b : List Instr)                                      -- select_biased!
   | selfwake (k : Nat)                                             -- a future that wakes itself k times
+  | abortCmd (name : Nat)                                          -- the task aborts a named command through its AbortHandle
   | host (cid : Nat) (m : Mapper)                                  -- (combinators only) cmd.map(m).host(ctx.effects, ctx.events).await
 deriving Repr, Inhabited
 
@@ -334,6 +335,15 @@ def World.dropCmd (w : World) (cid : Nat) : World := dropCmdAt (w.cmds.length + 
 def World.dropBlock (w : World) (b : Block) : World := M.Rt.dropBlock (fun c w => w.dropCmd c) b w
 def World.dropTask (w : World) (t : Task) : World := M.Rt.dropTask (fun c w => w.dropCmd c) t w
 
+/-- `AbortHandle::abort` (executor.rs:86-101): set the command's aborted flag, then take and wake the
+    AtomicWaker its host registered (no-op when the command is not hosted) -/
+def World.abortCmd (w : World) (cid : Nat) : World :=
+  let c := w.cmd cid
+  let w := w.modMeta c.abortFlag fun m => { m with aborted := true }
+  match c.waker with
+  | none => w
+  | some wk => (w.modCmd cid fun c => { c with waker := none }).wake wk
+
 /-! ## Polling a block (the DSL interpreter = what rustc + futures-util generate) -/
 
 inductive PollRes where
@@ -412,6 +422,10 @@ def pollBlock (pollNext : Waker → Nat → World → Option (NextRes × World))
         | .join a b => pollBlock pollNext f wk cid (.mk env (.join (.mk env .idle a) (.mk env .idle b) false false) rest') w
         | .select a b => pollBlock pollNext f wk cid (.mk env (.select (.mk env .idle a) (.mk env .idle b)) rest') w
         | .selfwake k => pollBlock pollNext f wk cid (.mk env (.selfwake k) rest') w
+        | .abortCmd name =>
+          match w.aborts.find? (·.1 == name) with
+          | some (_, c) => continue_ env rest' (w.abortCmd c)
+          | none => continue_ env rest' w
         | .host c m => pollBlock pollNext f wk cid (.mk env (.host c m) rest') w
     | .req x l =>
       let lf := w.leaf l
@@ -651,15 +665,6 @@ def instantiateAll (env : Env) : List Cmd → World → List Nat × World
     let (rest, w) := instantiateAll env cs w
     (ci :: rest, w)
 end
-
-/-- `AbortHandle::abort` (executor.rs:86-101): set the command's aborted flag, then take and wake the
-    AtomicWaker its host registered (no-op when the command is not hosted) -/
-def World.abortCmd (w : World) (cid : Nat) : World :=
-  let c := w.cmd cid
-  let w := w.modMeta c.abortFlag fun m => { m with aborted := true }
-  match c.waker with
-  | none => w
-  | some wk => (w.modCmd cid fun c => { c with waker := none }).wake wk
 
 /-! ## The shell side: resolving and dropping requests (core/resolve.rs, context.rs:57-91) -/
 
